@@ -241,6 +241,7 @@ PROPS_EXTRA = {
             "negative_balance_api": "C06",
             "api_conservation": "C06",
             "failed_call_changed_state": "C06",
+            "negative_amount_accepted": "C06",
             "index_mismatch_api": "C16",
         },
     },
